@@ -258,11 +258,15 @@ struct GetCase {
     split: usize,
     /// index into s3sim::FRAMINGS: Content-Length, chunked (1000- and 7-byte chunks), close-delimited
     framing: usize,
+    /// time already carried by the identifier that is handed to download_chunk (e.g. from an earlier
+    /// listing): 0 = none, 1 = the object's Last-Modified, 2 = 16 s earlier (the object was re-written
+    /// since it was listed), 3 = half a second later (a listing with sub-second resolution)
+    id_time: u8,
 }
 
 impl GetCase {
     fn json(&self) -> Value {
-        json!({"op": "get", "realtime": self.realtime, "name": self.name, "size": self.size, "status": self.status, "last_modified": LM_FORMS[self.lm], "short_body": self.short_body, "split": self.split, "framing": self.framing})
+        json!({"op": "get", "realtime": self.realtime, "name": self.name, "size": self.size, "status": self.status, "last_modified": LM_FORMS[self.lm], "short_body": self.short_body, "split": self.split, "framing": self.framing, "id_time": self.id_time})
     }
 }
 
@@ -340,7 +344,13 @@ fn check_get(ctx: &Ctx, sim: &Sim, rt: &tokio::runtime::Runtime, c: &GetCase, st
     }
     let r = guarded(|| {
         if c.realtime {
-            let id = ChunkIdentifier::new("KDMX".into(), VolumeIndex::new(17), name.clone(), None);
+            let held = match c.id_time {
+                1 => chrono::DateTime::from_timestamp_millis(T0),
+                2 => chrono::DateTime::from_timestamp_millis(T0 - 16_000),
+                3 => chrono::DateTime::from_timestamp_millis(T0 + 500),
+                _ => None,
+            };
+            let id = ChunkIdentifier::new("KDMX".into(), VolumeIndex::new(17), name.clone(), held);
             match rt.block_on(realtime::download_chunk("KDMX", &id)) {
                 Ok((rid, chunk)) => {
                     let bytes = match &chunk {
@@ -513,10 +523,10 @@ pub fn run(ctx: &'static Ctx) -> (&'static str, Value, Vec<&'static str>) {
                             if !thorough && name > 0 && size > 6 && status != 200 && status != 404 {
                                 continue;
                             }
-                            gets.push(GetCase { realtime, name, size, status, lm, short_body, split: 0, framing: 0 });
+                            gets.push(GetCase { realtime, name, size, status, lm, short_body, split: 0, framing: 0, id_time: 0 });
                             if status == 200 && lm == 0 && short_body == 0 && size > 1 && name < 2 {
                                 for split in [1usize, 3] {
-                                    gets.push(GetCase { realtime, name, size, status, lm, short_body, split, framing: 0 });
+                                    gets.push(GetCase { realtime, name, size, status, lm, short_body, split, framing: 0, id_time: 0 });
                                 }
                             }
                             // the other body framings (chunked, close-delimited), with and without
@@ -527,7 +537,7 @@ pub fn run(ctx: &'static Ctx) -> (&'static str, Value, Vec<&'static str>) {
                                     if short_body > 0 && FRAMINGS[framing] == Framing::Close {
                                         continue;
                                     }
-                                    gets.push(GetCase { realtime, name, size, status, lm, short_body, split: if size > 6 { 2 } else { 0 }, framing });
+                                    gets.push(GetCase { realtime, name, size, status, lm, short_body, split: if size > 6 { 2 } else { 0 }, framing, id_time: 0 });
                                 }
                             }
                         }
@@ -537,11 +547,20 @@ pub fn run(ctx: &'static Ctx) -> (&'static str, Value, Vec<&'static str>) {
         }
     }
     if !thorough {
-        gets.push(GetCase { realtime: false, name: 0, size: 2 << 20, status: 200, lm: 0, short_body: 0, split: 0, framing: 0 });
-        gets.push(GetCase { realtime: false, name: 0, size: 2 << 20, status: 200, lm: 0, short_body: 1, split: 0, framing: 0 });
-        gets.push(GetCase { realtime: true, name: 0, size: 2 << 20, status: 200, lm: 0, short_body: 0, split: 0, framing: 1 });
-        gets.push(GetCase { realtime: true, name: 0, size: 2 << 20, status: 200, lm: 0, short_body: 0, split: 2, framing: 0 });
+        gets.push(GetCase { realtime: false, name: 0, size: 2 << 20, status: 200, lm: 0, short_body: 0, split: 0, framing: 0, id_time: 0 });
+        gets.push(GetCase { realtime: false, name: 0, size: 2 << 20, status: 200, lm: 0, short_body: 1, split: 0, framing: 0, id_time: 0 });
+        gets.push(GetCase { realtime: true, name: 0, size: 2 << 20, status: 200, lm: 0, short_body: 0, split: 0, framing: 1, id_time: 0 });
+        gets.push(GetCase { realtime: true, name: 0, size: 2 << 20, status: 200, lm: 0, short_body: 0, split: 2, framing: 0, id_time: 0 });
     }
+    // the identifier handed to download_chunk may already carry a time (it usually comes from a
+    // listing): the returned identifier is stamped with the object's Last-Modified whatever it held
+    let with_time: Vec<GetCase> = gets
+        .iter()
+        .filter(|c| c.realtime && c.short_body == 0 && c.split == 0 && c.framing == 0 && (c.status == 200 || c.status == 404))
+        .flat_map(|c| (1..=3u8).map(move |t| GetCase { id_time: t, ..c.clone() }))
+        .collect();
+    stats.count("downloads_with_an_identifier_that_already_carries_a_time", with_time.len() as u64);
+    gets.extend(with_time);
     for (i, c) in gets.iter().enumerate() {
         check_get(ctx, &sim, &rt, c, &mut stats);
         stats.dim("get_status", c.status);
@@ -602,6 +621,7 @@ pub fn replay(ctx: &'static Ctx, case: &Value) {
                 short_body: case["short_body"].as_u64().unwrap_or(0) as u8,
                 framing: case["framing"].as_u64().unwrap_or(0) as usize,
                 split: case["split"].as_u64().unwrap_or(0) as usize,
+                id_time: case["id_time"].as_u64().unwrap_or(0) as u8,
             };
             check_get(ctx, &sim, &rt, &c, &mut st);
             println!("replay get {:?} -> {:?}", c, st.outcomes);
